@@ -238,6 +238,91 @@ example :
   decide
 
 
+/-! ### registering / unregistering services a file does not mention -/
+
+theorem regSuite_regAdd_other (reg : List (Str × Suite)) (n m : Str) (S : Suite) (h : m ≠ n) :
+    regSuite (regAdd reg n S) m = regSuite reg m := by
+  unfold regSuite regAdd
+  rw [List.find?_append]
+  cases hf : reg.find? (fun e => e.1 == m) with
+  | some e => simp
+  | none =>
+    have : (n == m) = false := by simpa using fun e => h e.symm
+    simp [this]
+
+theorem regSuite_regDel_other (reg : List (Str × Suite)) (n m : Str) (h : m ≠ n) :
+    regSuite (regDel reg n) m = regSuite reg m := by
+  unfold regSuite regDel
+  induction reg with
+  | nil => rfl
+  | cons e r ih =>
+    by_cases he : (e.1 == n) = true
+    · -- the entry cut out is not one `m` could have found
+      have hne : (e.1 == m) = false := by
+        have : e.1 = n := by simpa using he
+        simpa [this] using fun e' => h e'.symm
+      simp [he, hne]
+    · have he' : (e.1 == n) = false := by simpa using he
+      rw [List.eraseP_cons, he', cond_false]
+      by_cases hm : (e.1 == m) = true
+      · simp [hm]
+      · have hm' : (e.1 == m) = false := by simpa using hm
+        simp only [List.find?_cons, hm']
+        exact ih
+
+/-- two registries that give every service named in the entries the same suite read them alike -/
+theorem parseServices_congr_reg {reg reg' : List (Str × Suite)} :
+    ∀ (entries : List SvcCfg), (∀ c ∈ entries, regSuite reg' c.name = regSuite reg c.name) →
+      parseServices reg' entries = parseServices reg entries := by
+  intro entries h
+  have hc : collectServices reg' entries = collectServices reg entries := by
+    induction entries with
+    | nil => rfl
+    | cons c r ih =>
+      have h1 : parseServiceIdentity reg' c = parseServiceIdentity reg c := by
+        unfold parseServiceIdentity
+        rw [h c (by simp)]
+      simp only [collectServices, h1, ih (fun x hx => h x (by simp [hx]))]
+  unfold parseServices
+  rw [hc]
+
+/-- **the registry history does not matter**: whatever services were registered or unregistered
+between two reads — as long as every service *named in the file* is registered with the same suite
+as before — a group file reads as the same identities (hence the same roster id) -/
+theorem c18_registry_change_irrelevant (suites : List Suite) (reg reg' : List (Str × Suite))
+    (cfg : List ServerToml)
+    (h : ∀ s ∈ cfg, ∀ c ∈ s.services, regSuite reg' c.name = regSuite reg c.name) :
+    readGroup suites reg' cfg = readGroup suites reg cfg := by
+  have hs : readServers suites reg' cfg = readServers suites reg cfg := by
+    induction cfg with
+    | nil => rfl
+    | cons s r ih =>
+      have h1 : toServerIdentity suites reg' s = toServerIdentity suites reg s := by
+        unfold toServerIdentity
+        rw [parseServices_congr_reg s.services (h s (by simp))]
+      simp only [readServers, h1, ih (fun x hx => h x (by simp [hx]))]
+  unfold readGroup
+  rw [hs]
+
+/-- in particular for one `Register` / `Unregister` of a service the file does not mention, and the
+same for a private configuration -/
+theorem c18_unrelated_service_irrelevant (suites : List Suite) (reg : List (Str × Suite)) (n : Str) (S : Suite)
+    (cfg : List ServerToml) (hc : PrivCfg)
+    (h : ∀ s ∈ cfg, ∀ c ∈ s.services, c.name ≠ n) (hp : ∀ c ∈ hc.services, c.name ≠ n) :
+    readGroup suites (regAdd reg n S) cfg = readGroup suites reg cfg ∧
+    readGroup suites (regDel reg n) cfg = readGroup suites reg cfg ∧
+    getServerIdentity suites (regAdd reg n S) (loadCothority hc) = getServerIdentity suites reg (loadCothority hc) ∧
+    getServerIdentity suites (regDel reg n) (loadCothority hc) = getServerIdentity suites reg (loadCothority hc) := by
+  refine ⟨?_, ?_, ?_, ?_⟩
+  · exact c18_registry_change_irrelevant _ _ _ _ fun s hs c hc' => regSuite_regAdd_other _ _ _ _ (h s hs c hc')
+  · exact c18_registry_change_irrelevant _ _ _ _ fun s hs c hc' => regSuite_regDel_other _ _ _ (h s hs c hc')
+  · unfold getServerIdentity loadCothority
+    simp only
+    rw [parseServices_congr_reg hc.services fun c hc' => regSuite_regAdd_other _ _ _ _ (hp c hc')]
+  · unfold getServerIdentity loadCothority
+    simp only
+    rw [parseServices_congr_reg hc.services fun c hc' => regSuite_regDel_other _ _ _ (hp c hc')]
+
 /-! ### the code regions the model stands for
 Regenerated from /repo's source on every run (`harness/cmd/astfacts` → `OnetVerif/Shapes.lean`): the
 calls that matter for synchronisation and data flow, the lock regions and (for decision logic) the
